@@ -481,6 +481,55 @@ func runC11(c *core.Ctx) {
 			c.Violationf("panic:reconfigure-in-flight", nil, "re-configuring a MonadIO in flight panics: %v at %s", pv, where)
 		}
 	}
+	// the handlers also bind when the MonadIO is evaluated by a coroutine (Cor.YieldFromIO subscribes to it): the effect
+	// runs on the ObserveOn handler's goroutine - not before the handler is free to run it - exactly once
+	for variant := 0; variant < 3; variant++ {
+		c.Eval(1)
+		c.DistinctAdd(1)
+		variant := variant
+		pv, where := core.Catch(func() {
+			var effG atomic.Int64
+			var effects atomic.Int32
+			busy := make(chan struct{})
+			started := make(chan struct{})
+			e.h1.Post(func() { close(started); <-busy }) // h1 is busy: an effect observed on h1 cannot have run yet
+			<-started
+			io := fpgo.MonadIO.New(func() interface{} { effG.Store(core.Goid()); effects.Add(1); return 77 })
+			switch variant {
+			case 0:
+				io = io.ObserveOn(e.h1)
+			case 1:
+				io = io.ObserveOn(e.h1).SubscribeOn(e.h2)
+			default:
+				io = io.FlatMap(func(v interface{}) *fpgo.MonadIODef[interface{}] { return fpgo.MonadIO.Just(v) }).ObserveOn(e.h1)
+			}
+			done := make(chan struct{})
+			var got interface{}
+			go func() {
+				defer close(done)
+				got = fpgo.Cor.DoNotation(func(self *fpgo.CorDef[interface{}]) interface{} { return self.YieldFromIO(io) })
+			}()
+			time.Sleep(3 * time.Millisecond)
+			early := effects.Load()
+			close(busy)
+			v, dump := core.AwaitOrStuck(done, 2*time.Second, 60*time.Second, func() int64 { return 0 })
+			rep := map[string]any{"variant": variant}
+			if v == "stuck" {
+				rep["goroutines"] = core.RepoGoroutineSummary(dump)
+				c.Violationf("YieldFromIO:never-returns", rep, "Cor.YieldFromIO of a MonadIO observed on a (temporarily busy) handler never returns")
+				return
+			} else if v != "done" {
+				c.Inconclusive("YieldFromIO handler probe: watchdog")
+				return
+			}
+			if early != 0 || effG.Load() != e.g1 || effects.Load() != 1 || fmt.Sprint(got) != "77" {
+				c.Violationf("YieldFromIO:effect-not-on-ObserveOn-handler", rep, "Cor.YieldFromIO(io.ObserveOn(h1)) while h1 was busy: %d effects had run before h1 was free, the effect ran on goroutine %d (h1 is %d), %d effects in total, value %v (want 0, h1, 1, 77)", early, effG.Load(), e.g1, effects.Load(), got)
+			}
+		})
+		if pv != nil {
+			c.Violationf("panic:YieldFromIO-handlers", nil, "YieldFromIO with handlers panics: %v at %s", pv, where)
+		}
+	}
 	h3.Close()
 	// a composed MonadIO is a value: two (or more) MonadIOs derived from the SAME parent are independent of each other.
 	// parent depths 0..18 x all ordered pairs of continuation kinds, each branch extended once more afterwards
